@@ -300,6 +300,30 @@ func famRawXML(o *Out, r *RNG, thorough bool) {
 			emitRawRt(o, `<w xmlns:w2="urn:w">`+p+q+`</w>`)
 		}
 	}
+	// every nesting depth: chains far deeper than any property value (with namespaces changing on the way down and
+	// something to lose at the bottom)
+	for _, depth := range []int{30, 64, 99, 100, 101, 128, 150, 256, 400, 1000} {
+		var b strings.Builder
+		for i := 0; i < depth; i++ {
+			switch i % 3 {
+			case 0:
+				fmt.Fprintf(&b, `<n%d xmlns="urn:l%d">`, i, i%7)
+			case 1:
+				fmt.Fprintf(&b, `<p:n%d xmlns:p="urn:p%d" id="%d">`, i, i%5, i)
+			default:
+				fmt.Fprintf(&b, `<n%d>t%d`, i, i)
+			}
+		}
+		b.WriteString(`<leaf a="bottom">text at the bottom<!-- c --></leaf>`)
+		for i := depth - 1; i >= 0; i-- {
+			if i%3 == 1 {
+				fmt.Fprintf(&b, `</p:n%d>`, i)
+			} else {
+				fmt.Fprintf(&b, `</n%d>`, i)
+			}
+		}
+		emitRawRt(o, b.String())
+	}
 	n := 3000
 	if thorough {
 		n = 60000
